@@ -397,16 +397,16 @@ func (fr *Frame) builtinCopy(in ssa.Instruction, args []Val) Val {
 	} else {
 		sArr := sel(heap, src.sBase())
 		sLen = src.sLen()
-		srcAt = func(i string) string { return sel(sArr, app("bvadd", src.sOff(), i)) }
+		srcAt = func(i string) string { return sel(sArr, bvAdd(src.sOff(), i)) }
 	}
 	n := e.fresh("copyn", sBV64)
 	e.assume(mkEq(n, mkIte(app("bvslt", dst.sLen(), sLen), dst.sLen(), sLen)))
 	na := e.fresh("copied", asrt)
 	i := "i!c"
-	rel := app("bvsub", i, dst.sOff())
-	body := mkEq(sel(na, i), mkIte(mkAnd(app("bvsle", dst.sOff(), i), app("bvslt", i, app("bvadd", dst.sOff(), n))), srcAt(rel), sel(dArr, i)))
+	rel := bvSub(i, dst.sOff())
+	body := mkEq(sel(na, i), mkIte(mkAnd(app("bvsle", dst.sOff(), i), app("bvslt", i, bvAdd(dst.sOff(), n))), srcAt(rel), sel(dArr, i)))
 	_ = body
-	e.defArray(na, i, mkIte(mkAnd(app("bvsle", dst.sOff(), i), app("bvslt", i, app("bvadd", dst.sOff(), n))), srcAt(rel), sel(dArr, i)))
+	e.defArray(na, i, mkIte(mkAnd(app("bvsle", dst.sOff(), i), app("bvslt", i, bvAdd(dst.sOff(), n))), srcAt(rel), sel(dArr, i)))
 	e.heapSet(fr.st, key, srt, mkIte(mkEq(n, bvLitI(64, 0)), heap, sto(heap, dst.sBase(), na)))
 	return Val{T: tInt, S: n}
 }
@@ -433,7 +433,7 @@ func (fr *Frame) builtinAppend(in ssa.Instruction, args []Val, resT types.Type) 
 		} else {
 			tl = app("slen", t.S)
 		}
-		e.assume(mkImp(fr.pc, mkAnd(mkEq(v.sLen(), app("bvadd", s.sLen(), tl)), mkNot(mkEq(v.sBase(), "0")), app("<=", v.sBase(), fr.st.alloc))))
+		e.assume(mkImp(fr.pc, mkAnd(mkEq(v.sLen(), bvAdd(s.sLen(), tl)), mkNot(mkEq(v.sBase(), "0")), app("<=", v.sBase(), fr.st.alloc))))
 		v.NN = true
 		return v
 	}
@@ -450,28 +450,44 @@ func (fr *Frame) builtinAppend(in ssa.Instruction, args []Val, resT types.Type) 
 	} else {
 		tArr := sel(heap, t.sBase())
 		tLen = t.sLen()
-		tAt = func(i string) string { return sel(tArr, app("bvadd", t.sOff(), i)) }
+		tAt = func(i string) string { return sel(tArr, bvAdd(t.sOff(), i)) }
 	}
 	newLen := e.fresh("applen", sBV64)
-	e.assume(mkEq(newLen, app("bvadd", s.sLen(), tLen)))
+	e.assume(mkEq(newLen, bvAdd(s.sLen(), tLen)))
 	fits := e.fresh("appfits", sBool)
 	e.assume(mkEq(fits, app("bvsle", newLen, s.sCap())))
 	// in place
 	sArr := sel(heap, s.sBase())
 	i := "i!a"
-	start := app("bvadd", s.sOff(), s.sLen())
-	inArr := e.fresh("app_inplace", asrt)
-	body := mkEq(sel(inArr, i), mkIte(mkAnd(app("bvsle", start, i), app("bvslt", i, app("bvadd", start, tLen))), tAt(app("bvsub", i, start)), sel(sArr, i)))
-	_ = body
-	e.defArray(inArr, i, mkIte(mkAnd(app("bvsle", start, i), app("bvslt", i, app("bvadd", start, tLen))), tAt(app("bvsub", i, start)), sel(sArr, i)))
+	start := bvAdd(s.sOff(), s.sLen())
+	// a literal, small number of appended elements (the usual append(s, x)): the in-place array
+	// is a plain chain of stores, no quantified definition needed
+	smallK := -1
+	if v, _, ok := litVal(tLen); ok && v.IsInt64() && v.Int64() >= 1 && v.Int64() <= 4 {
+		smallK = int(v.Int64())
+	}
+	var inArr string
+	if smallK > 0 {
+		inArr = sArr
+		for j := 0; j < smallK; j++ {
+			inArr = sto(inArr, bvAdd(start, bvLitI(64, int64(j))), tAt(bvLitI(64, int64(j))))
+		}
+	} else {
+		inArr = e.fresh("app_inplace", asrt)
+		e.defArray(inArr, i, mkIte(mkAnd(app("bvsle", start, i), app("bvslt", i, bvAdd(start, tLen))), tAt(bvSub(i, start)), sel(sArr, i)))
+	}
 	// reallocated
 	r := e.newRef(fr.st, "append")
 	reArr := e.fresh("app_realloc", asrt)
-	body2 := mkEq(sel(reArr, i), mkIte(mkAnd(app("bvsle", bvLitI(64, 0), i), app("bvslt", i, s.sLen())), sel(sArr, app("bvadd", s.sOff(), i)),
-		mkIte(mkAnd(app("bvsle", s.sLen(), i), app("bvslt", i, newLen)), tAt(app("bvsub", i, s.sLen())), zeroLeaf(es))))
+	body2 := mkEq(sel(reArr, i), mkIte(mkAnd(app("bvsle", bvLitI(64, 0), i), app("bvslt", i, s.sLen())), sel(sArr, bvAdd(s.sOff(), i)),
+		mkIte(mkAnd(app("bvsle", s.sLen(), i), app("bvslt", i, newLen)), tAt(bvSub(i, s.sLen())), zeroLeaf(es))))
 	_ = body2
-	e.defArray(reArr, i, mkIte(mkAnd(app("bvsle", bvLitI(64, 0), i), app("bvslt", i, s.sLen())), sel(sArr, app("bvadd", s.sOff(), i)),
-		mkIte(mkAnd(app("bvsle", s.sLen(), i), app("bvslt", i, newLen)), tAt(app("bvsub", i, s.sLen())), zeroLeaf(es))))
+	e.defArray(reArr, i, mkIte(mkAnd(app("bvsle", bvLitI(64, 0), i), app("bvslt", i, s.sLen())), sel(sArr, bvAdd(s.sOff(), i)),
+		mkIte(mkAnd(app("bvsle", s.sLen(), i), app("bvslt", i, newLen)), tAt(bvSub(i, s.sLen())), zeroLeaf(es))))
+	for j := 0; j < smallK; j++ {
+		// explicit facts about the appended elements of the reallocated array
+		e.assume(mkImp(fr.pc, mkEq(sel(reArr, bvAdd(s.sLen(), bvLitI(64, int64(j)))), tAt(bvLitI(64, int64(j))))))
+	}
 	newCap := e.fresh("appcap", sBV64)
 	e.assume(mkAnd(app("bvsle", newLen, newCap), app("bvsle", newCap, bvLitI(64, 1<<42))))
 	nothing := mkEq(tLen, bvLitI(64, 0))
